@@ -1445,6 +1445,9 @@ int scpiParser_parseProgramData(lex_state_t * state, scpi_token_t * token) {
                 token->len += wsLen + suffixLen;
                 token->type = SCPI_TOKEN_DECIMAL_NUMERIC_PROGRAM_DATA_WITH_SUFFIX;
                 result = token->len;
+            } else {
+                /* white space without suffix is already consumed, count it as trailing white space */
+                realLen += wsLen;
             }
         }
     }
